@@ -387,6 +387,16 @@ def main():
         n = extremum_check(c_, q_, lambda key, what, **kw: vv.append(dict(key=key, what=what, cfg=jsonable(c_), **kw)))
         res['predictions_checked'] += n; res['violations'] += vv; res['configs'] += 1
         dist['corpus'] = dist.get('corpus', 0) + 1
+    # fixed resolution ladder: a quasi-helically symmetric axis with a NON-symmetric sigma (sigma0 != 0) at order r3 -- the only combination in which
+    # calculate_shear() integrates with the trapezoid rule AND iotaN differs from iota
+    FIXED = [dict(rc=[1.0, 0.17, 0.01804, 0.001409, 5.877e-05], zs=[0.0, 0.1581, 0.0182, 0.001548, 7.772e-05], nfp=4, etabar=1.569, sigma0=0.2, B2c=0.1348,
+                  order='r3', sG=1, spsi=1, B0=1.0, I2=0.0, p2=0.0, B2s=0.0, nphi=61)]
+    for c_ in FIXED:
+        if res['violations']:
+            break
+        v, n = safe_predict(c_, rng, None, thorough=(a.tier == 'thorough'), stats=stats, sub=12345)
+        res['predictions_checked'] += n; res['violations'] += v; res['configs'] += 1
+        dist['fixed-ladder'] = dist.get('fixed-ladder', 0) + 1
     while tried < nn and (a.mode == 'check' or (time.time() - t0 < a.budget and not res['violations'])):
         tried += 1
         sg = [(1, 1), (1, -1), (-1, 1), (-1, -1)][int(rng.integers(0, 4))]
